@@ -518,9 +518,8 @@ def c20(res, tier, seed, deep):
             impl += ["<no-output>"] * (len(chunk) - len(impl))
         for req, o, (m, s) in zip(chunk, impl, drv):
             parts = o.split(" ")
-            core = " ".join(parts[:10])
             good = len(parts) == 12 and parts[11] == "back=" + parts[0] and cbor_ok(parts[10], parts[0])
-            res.add(req, core, m, s, (lambda x, good=good: sv_mv(x) if good else "serialisation-roundtrip-failed"))
+            res.add(req, o, m, s, (lambda x, good=good: sv_mv(x) if good else "serialisation-roundtrip-failed"))
     # equality ⇔ attribute equality on a sample: distinct attribute tuples must give distinct raws
     res.exhaustive = tier == "thorough"
     return "constructor calls with colour, piece, origin, destination, capture and promotion kinds (thorough: all 2x6x64x64 origin/destination combinations for every constructor with rotating capture/promotion kinds plus every capture x promotion pair on a square grid, and the 4 castling moves); each answer = raw, all accessors, real ciborium bytes and the decoded raw; spec = the attributes passed in"
